@@ -157,7 +157,12 @@ def V4(inp, pos, own=0):
     the applied index stops just before it, no entry is applied twice on later ticks; a VERSION entry the node supports
     is applied like any other entry and the batch completes; it raises the enabled version, never lowers it."""
     now = inp.real('now', 0)
-    o, tr = so.make('a', ['b', 'c'], so.Clock(now), inp, cls=Acc2 if own == 2 else Acc)
+    seen = []
+
+    def on_switch(old, new):
+        # what the application sees inside its callback: the enabled version and the implementation a call made now would use
+        seen.append((old, new, o.getCodeVersion(), o._getFuncName('add')))
+    o, tr = so.make('a', ['b', 'c'], so.Clock(now), inp, cls=Acc2 if own == 2 else Acc, onCodeVersionChanged=on_switch)
     cmds.install(inp)
     w = inp.int('wanted', 0, 3)
     en = inp.int('enabled', 0, own) if own else 0
@@ -196,6 +201,10 @@ def V4(inp, pos, own=0):
     # C17: a request for a lower version than the enabled one is rejected wherever it ends up in the common sequence (two requests
     # submitted concurrently each pass the submitter's local check): the enabled version never decreases
     cl['enabled_version'] = Eq(o.getCodeVersion(), Ite(unsupported, en, core.Max(en, w)))
+    # inside onCodeVersionChanged the switch is complete: version and name table agree (a migration step issued from the callback
+    # must run the new implementation)
+    cl['switch_complete_when_the_application_is_told'] = all(v == new and name == 'add_v%d' % max(x for x in ((0, 2) if own == 2 else (0,)) if x <= new)
+                                                             for old, new, v, name in seen)
     cl['callbacks_only_for_applied_entries_once'] = And([Iff(Or(i < pos, Not(unsupported)), len(r.calls) == 1) if len(r.calls) <= 1 else False for i, r in enumerate(recs)])
     return Res(cl, nontrivial=unsupported, obs=lambda: dict(pos=pos, own=own, enabled=show(en), wanted=show(w), seq=show(o.seq), applied=show(applied),
                                                             calls=[len(r.calls) for r in recs], exc=show(exc)), vars=dict(unsupported=unsupported))
@@ -273,16 +282,22 @@ def V6(inp):
     blocked = o.raftLastApplied
     # the leader's snapshot of position 4 arrives and is installed (real gzip + pickle)
     scratch = ser_mod.Serializer(None, 1 << 20, False, None, None, None)
-    scratch.serialize(({'total': s0, 'seq': []}, (so.NOOP, 4, 1), (so.NOOP, 3, 1), set([Node('a'), Node('b'), Node('c')]), 0), 3)
+    newer = inp.flag('snapshot_taken_after_the_switch')       # it then carries enabled version 1, which this node's code lacks
+    scratch.serialize(({'total': s0, 'seq': []}, (so.NOOP, 4, 1), (so.NOOP, 3, 1), set([Node('a'), Node('b'), Node('c')]), 1 if newer else 0), 3)
     get(o, 'serializer')._Serializer__incomingTransmissionData = scratch._Serializer__inMemorySerializedData
     _, exc1 = guard(getattr(o, so.P + 'loadDumpFile'), True)
     log = get(o, 'raftLog')
-    log.add(cmds.regular(inp, add_id, (x2,)), 5, 1)
-    put(o, 'raftCommitIndex', 5)
+    if not newer:
+        log.add(cmds.regular(inp, add_id, (x2,)), 5, 1)
+        put(o, 'raftCommitIndex', 5)
     _, exc2 = guard(o._onTick, 0.0)
     _, exc3 = guard(o._onTick, 0.0)
     cl = {'no_exception': exc is None and exc1 is None and exc2 is None and exc3 is None}
     cl['blocked_before_the_version_entry'] = blocked == 1
-    cl['snapshot_installed'] = o.raftLastApplied >= 4
-    cl['goes_on_applying_after_the_snapshot'] = And(o.raftLastApplied == 5, Eq(o.total, s0 + x2))
+    if newer:
+        # C17: a node that lacks the enabled version stops applying rather than misapplying - also when a snapshot comes along
+        cl['snapshot_of_a_newer_version_refused'] = And(o.raftLastApplied == 1, o.getCodeVersion() == 0, Eq(o.total, 0))
+    else:
+        cl['snapshot_installed'] = o.raftLastApplied >= 4
+        cl['goes_on_applying_after_the_snapshot'] = And(o.raftLastApplied == 5, Eq(o.total, s0 + x2))
     return Res(cl, nontrivial=True, obs=lambda: dict(blocked=blocked, applied=o.raftLastApplied, total=show(o.total), exc=[show(e) for e in (exc, exc1, exc2, exc3)]))
